@@ -147,4 +147,14 @@ PROPS["C10"] = {
     "assumptions": [],
 }
 
+PROPS["C08"] = {
+    "modules": ["Foundation.Proofs.C08"],
+    "level_text": "Machine-checked over a two-ledger model with any number of swaps and owners, direct and reverse: completions and cancellations of absent records and wrong keys are rejected on both sides, the origin record can never be user-completed, a released record is gone; for every interleaving of user steps, rejected attempts and actor steps respecting the documented order (robot answers an origin record once with its content and closes the origin only after a destination completion; origin cancel only after a successful destination cancel) the invariant srcA(u)+dstB(u)+owed(u)=funding(u) holds: no gain, at most one of credit/refund per swap, and when no record is open the origin closed exactly what the destination credited (given counter follows). Tied to the code by an exhaustive walk of all step sequences on one swap and random two-swap histories incl. the task-route id collision, on two real chaincode instances.",
+    "level_note": "Trusted: Lean kernel + 3 axioms; sha3 preimage resistance (keys are right/wrong); platform and robot obey the stated protocol (hypothesis `allowed`); swap ids of begun swaps are not re-used after they finished (Fabric tx ids; the task route lets callers pick ids - re-use of an open id is refused since fix c149971); robot completion called on the destination copy is outside the protocol and not modelled.",
+    "trusted_base": ["core/bc_swap.go, core/swap/swap.go modelled by Foundation.Swap.step; protocol by Swap.allowed"],
+    "hypotheses": ["robot: answers an origin record at most once, with its exact content; closes the origin only with a key published by a destination completion", "platform: cancels the origin only after a successful destination cancel of the same id (doc/swap.md rules 3-4)", "ids of new swaps carry no completion/cancellation history"],
+    "not_modelled": ["RobotDone invoked on the destination copy", "swap timeouts (not checked by the code)", "OnSwapDoneEvent listener"],
+    "assumptions": [],
+}
+
 NOT_APPLICABLE = {}
